@@ -378,7 +378,7 @@ Qed.
 
 (* the same bytes for ANY sorted permutation, e.g. the one Go's pdqsort returns for more than
    12 tuples, when tied tuples encode identically *)
-Theorem inv_bytes_any_sort s m c ts sorted :
+Theorem inv_bytes_any_sort ts sorted :
   Permutation sorted ts -> StronglySorted tk_le sorted -> tie_free ts = true ->
   flat_map enc_tuple sorted = flat_map enc_tuple (sort_tuples ts).
 Proof.
@@ -419,3 +419,393 @@ Proof.
       repeat split; apply pb_equiv_refl.
   - vm_compute. discriminate.
 Qed.
+
+(* ------------------------------------------------------------------ keys that are field sequences *)
+Fixpoint str (s : string) : bytes :=
+  match s with EmptyString => [] | String c s' => Ascii.N_of_ascii c :: str s' end.
+
+Theorem lits_ok :
+  lit_INFINITE = str "INFINITE" /\ lit_OR = str "OR" /\ lit_READ = str "READ" /\ lit_RSWU = str "RSWU" /\
+  lit_RUT = str "RUT" /\ lit_TS = str "TS" /\ lit_TTU = str "TTU" /\ lit_UOT = str "UOT" /\
+  lit_USERSET = str "USERSET" /\ lit_V2 = str "V2".
+Proof. vm_compute. repeat split. Qed.
+
+(* the named prefix constants read from the Go source are pairwise distinct, and distinct from
+   the inline first-field literals that share a map with them *)
+Theorem prefixes_pairwise_distinct :
+  nodupb (map snd c24_prefix_table ++ [lit_TS; lit_V2; lit_USERSET; lit_TTU]) = true.
+Proof. vm_compute. reflexivity. Qed.
+
+Theorem prefix_table_covered :
+  map snd c24_prefix_table =
+  [c24_CacheKeyPrefix; c24_ModelCacheKeyPrefix; c24_PrefixChangelogCache; c24_PrefixEdgeCacheKey;
+   c24_PrefixInvalidIteratorCache; c24_PrefixIteratorCache; c24_PrefixSubproblemCache].
+Proof. reflexivity. Qed.
+
+Ltac unprefix :=
+  cbv [c24_CacheKeyPrefix c24_ModelCacheKeyPrefix c24_PrefixChangelogCache c24_PrefixEdgeCacheKey
+       c24_PrefixInvalidIteratorCache c24_PrefixIteratorCache c24_PrefixSubproblemCache
+       lit_INFINITE lit_OR lit_READ lit_RSWU lit_RUT lit_TS lit_TTU lit_UOT lit_USERSET lit_V2] in *.
+
+(* Every constructor, every pair of constructors: equal bytes only for the same constructor
+   applied to the same arguments (within one map). *)
+Theorem pkey_inj k1 k2 :
+  pkey_wf k1 = true -> pkey_wf k2 = true -> pkey_domain k1 = pkey_domain k2 ->
+  pkey_bytes k1 = pkey_bytes k2 -> k1 = k2.
+Proof.
+  unfold pkey_wf, pkey_bytes. intros W1 W2 D H.
+  apply enc_fields_inj in H; [|exact W1|exact W2]. clear W1 W2.
+  destruct k1, k2; cbn [pkey_domain] in D; try discriminate D; clear D;
+    cbn [pkey_fields] in H; unprefix; try discriminate H;
+    injection H; intros; subst; reflexivity.
+Qed.
+
+(* C16 store_in_every_key: for every key constructor that takes a store id, different stores
+   give different keys *)
+Corollary store_in_every_key k1 k2 :
+  pkey_wf k1 = true -> pkey_wf k2 = true -> pkey_domain k1 = pkey_domain k2 ->
+  pkey_bytes k1 = pkey_bytes k2 -> pkey_store k1 = pkey_store k2.
+Proof. intros W1 W2 D H. rewrite (pkey_inj k1 k2 W1 W2 D H). reflexivity. Qed.
+
+(* the two request-local index maps have no prefix; across maps the bytes may coincide *)
+Example pkey_domains_matter :
+  exists k1 k2, k1 <> k2 /\ pkey_bytes k1 = pkey_bytes k2.
+Proof. exists (KCtxByUser [97] [98] [99]), (KCtxByObject [97] [98] [99]). split; [discriminate|reflexivity]. Qed.
+
+(* check_key_inj *)
+Theorem check_key_inj s1 o1 r1 u1 i1 s2 o2 r2 u2 i2 :
+  is_u64 i1 = true -> is_u64 i2 = true ->
+  pkey_bytes (KCheck s1 o1 r1 u1 i1) = pkey_bytes (KCheck s2 o2 r2 u2 i2) ->
+  s1 = s2 /\ o1 = o2 /\ r1 = r2 /\ u1 = u2 /\ i1 = i2.
+Proof.
+  intros W1 W2 H. apply pkey_inj in H.
+  - injection H; intros; subst; auto.
+  - unfold pkey_wf. simpl. rewrite W1. reflexivity.
+  - unfold pkey_wf. simpl. rewrite W2. reflexivity.
+  - reflexivity.
+Qed.
+
+(* ------------------------------------------------------------------ iterator keys *)
+Lemma Permutation_map_inj {A B} (f : A -> B) l1 l2 :
+  (forall a b, In a l1 -> In b l2 -> f a = f b -> a = b) ->
+  Permutation (map f l1) (map f l2) -> Permutation l1 l2.
+Proof.
+  intros Hinj HP. apply Permutation_map_inv in HP as [l3 [E P]].
+  assert (l1 = l3).
+  { assert (Hinj' : forall a b, In a l1 -> In b l3 -> f a = f b -> a = b).
+    { intros a b Ha Hb. apply Hinj; [exact Ha|]. eapply Permutation_in; [apply Permutation_sym; exact P|exact Hb]. }
+    clear P Hinj. revert l3 E Hinj'. induction l1 as [|a l1 IH]; intros [|b l3] E Hinj'; simpl in E; try discriminate.
+    - reflexivity.
+    - injection E as E1 E2. f_equal.
+      + apply Hinj'; [left; reflexivity|left; reflexivity|exact E1].
+      + apply IH; [exact E2|]. intros x y Hx Hy. apply Hinj'; right; assumption. }
+  subst. apply Permutation_sym. exact P.
+Qed.
+
+Lemma mem_mid c t r : mem c (t ++ c :: r) = true.
+Proof. apply mem_In. apply in_or_app. right. left. reflexivity. Qed.
+
+Lemma uf_str_inj a b : uf_wf a = true -> uf_wf b = true -> uf_str a = uf_str b -> a = b.
+Proof.
+  destruct a as [o1 r1], b as [o2 r2]. unfold uf_wf, uf_str. simpl.
+  intros W1 W2 H. apply negb_true_iff in W1, W2.
+  destruct r1 as [|x1 r1], r2 as [|x2 r2].
+  - congruence.
+  - exfalso. subst o1. rewrite mem_mid in W1. discriminate.
+  - exfalso. subst o2. rewrite mem_mid in W2. discriminate.
+  - assert (C1 := cut_app c_hash o1 (x1 :: r1) W1). assert (C2 := cut_app c_hash o2 (x2 :: r2) W2).
+    rewrite H in C1. rewrite C1 in C2. congruence.
+Qed.
+
+Lemma ref_str_inj a b : ref_wf a = true -> ref_wf b = true -> ref_str a = ref_str b -> a = b.
+Proof.
+  destruct a as [t1 k1], b as [t2 k2]. unfold ref_wf, ref_str. simpl.
+  intros W1 W2 H. apply andb_true_iff in W1 as [H1 C1]. apply andb_true_iff in W2 as [H2 C2].
+  apply negb_true_iff in H1, H2, C1, C2.
+  assert (Hh : forall t r, mem c_hash (t ++ c_hash :: r) = true).
+  { intros t r. apply mem_mid. }
+  assert (Hw : forall t, mem c_hash t = false -> mem c_hash (t ++ [c_colon; c_star]) = false).
+  { intros t Ht. rewrite mem_app, Ht. reflexivity. }
+  assert (Hc : forall t, mem c_colon (t ++ [c_colon; c_star]) = true).
+  { intros t. apply (mem_mid c_colon t [c_star]). }
+  destruct k1 as [r1| |], k2 as [r2| |].
+  - assert (E1 := cut_app c_hash t1 r1 H1). assert (E2 := cut_app c_hash t2 r2 H2).
+    rewrite H in E1. rewrite E1 in E2. congruence.
+  - exfalso. assert (E := Hh t1 r1). rewrite H, (Hw t2 H2) in E. discriminate.
+  - exfalso. assert (E := Hh t1 r1). rewrite H, H2 in E. discriminate.
+  - exfalso. assert (E := Hh t2 r2). rewrite <- H, (Hw t1 H1) in E. discriminate.
+  - apply app_inv_tail in H. subst. reflexivity.
+  - exfalso. assert (E := Hc t1). rewrite H, C2 in E. discriminate.
+  - exfalso. assert (E := Hh t2 r2). rewrite <- H, H1 in E. discriminate.
+  - exfalso. assert (E := Hc t2). rewrite <- H, C1 in E. discriminate.
+  - subst. reflexivity.
+Qed.
+
+(* without names_wellformed the concatenation conflates entries *)
+Example uf_str_conflates_ill_formed : uf_str ([97; 35; 98], []) = uf_str ([97], [98]).
+Proof. reflexivity. Qed.
+Example ref_str_conflates_ill_formed : ref_str ([97; 58; 42], RNone) = ref_str ([97], RWild).
+Proof. reflexivity. Qed.
+
+Definition is_empty_some (o : option (list bytes)) : bool :=
+  match o with Some [] => true | _ => false end.
+
+Lemma oid_values_inj o1 o2 :
+  is_empty_some o1 = false -> is_empty_some o2 = false -> oid_values o1 = oid_values o2 -> o1 = o2.
+Proof.
+  destruct o1 as [[|x l]|], o2 as [[|y m]|]; simpl; intros H1 H2 H; try discriminate; congruence.
+Qed.
+
+Section HashedProofs.
+  Variable hash : bytes -> N.
+  Hypothesis hash_u64 : forall b, is_u64 (hash b) = true.
+
+  (* ---- ReadStartingWithUserKey *)
+  Theorem rswu_key_inj s1 t1 r1 uf1 o1 c1 s2 t2 r2 uf2 o2 c2 :
+    (hash (rswu_stage1 uf1 o1 c1) = hash (rswu_stage1 uf2 o2 c2) ->
+     rswu_stage1 uf1 o1 c1 = rswu_stage1 uf2 o2 c2) ->                        (* no_digest_collision *)
+    rswu_key hash s1 t1 r1 uf1 o1 c1 = rswu_key hash s2 t2 r2 uf2 o2 c2 ->
+    s1 = s2 /\ t1 = t2 /\ r1 = r2 /\
+    Permutation (map uf_str uf1) (map uf_str uf2) /\ oid_values o1 = oid_values o2 /\ Permutation c1 c2.
+  Proof.
+    unfold rswu_key. intros NC H. apply pkey_inj in H;
+      [|unfold pkey_wf; simpl; rewrite hash_u64; reflexivity
+       |unfold pkey_wf; simpl; rewrite hash_u64; reflexivity|reflexivity].
+    injection H as -> -> -> Hh. apply NC in Hh. unfold rswu_stage1 in Hh.
+    apply enc_str_array_pf in Hh as [E1 Hh]. apply enc_str_array_pf in Hh as [E2 Hh].
+    rewrite <- (app_nil_r (enc_str_array (sort_strings c1))),
+            <- (app_nil_r (enc_str_array (sort_strings c2))) in Hh.
+    apply enc_str_array_pf in Hh as [E3 _].
+    repeat split; try assumption; apply sort_strings_canonical; assumption.
+  Qed.
+
+  Theorem rswu_key_canonical s t r uf1 o1 c1 uf2 o2 c2 :
+    Permutation (map uf_str uf1) (map uf_str uf2) -> oid_values o1 = oid_values o2 -> Permutation c1 c2 ->
+    rswu_key hash s t r uf1 o1 c1 = rswu_key hash s t r uf2 o2 c2.
+  Proof.
+    intros P1 E P2. unfold rswu_key, rswu_stage1.
+    apply sort_strings_canonical in P1, P2. rewrite P1, P2, E. reflexivity.
+  Qed.
+
+  (* names_wellformed: entries themselves, not only their strings *)
+  Theorem rswu_key_inj_wellformed s1 t1 r1 uf1 o1 c1 s2 t2 r2 uf2 o2 c2 :
+    forallb uf_wf uf1 = true -> forallb uf_wf uf2 = true ->
+    is_empty_some o1 = false -> is_empty_some o2 = false ->
+    (hash (rswu_stage1 uf1 o1 c1) = hash (rswu_stage1 uf2 o2 c2) ->
+     rswu_stage1 uf1 o1 c1 = rswu_stage1 uf2 o2 c2) ->
+    rswu_key hash s1 t1 r1 uf1 o1 c1 = rswu_key hash s2 t2 r2 uf2 o2 c2 ->
+    s1 = s2 /\ t1 = t2 /\ r1 = r2 /\ Permutation uf1 uf2 /\ o1 = o2 /\ Permutation c1 c2.
+  Proof.
+    intros W1 W2 N1 N2 NC H. apply rswu_key_inj in H as [Es [Et [Er [Pu [Eo Pc]]]]]; [|exact NC].
+    repeat split; try assumption.
+    - apply (Permutation_map_inj uf_str); [|exact Pu].
+      rewrite forallb_forall in W1, W2. intros a b Ha Hb. apply uf_str_inj; auto.
+    - apply oid_values_inj; assumption.
+  Qed.
+
+  (* the full-strength statement (ObjectIDs compared as given, nil distinct from empty) fails *)
+  Theorem rswu_key_nil_empty_conflated s t r uf c :
+    rswu_key hash s t r uf None c = rswu_key hash s t r uf (Some []) c.
+  Proof. reflexivity. Qed.
+
+  Theorem rswu_key_inj_refuted :
+    exists s t r uf c o1 o2, o1 <> o2 /\ rswu_key hash s t r uf o1 c = rswu_key hash s t r uf o2 c.
+  Proof. exists [], [], [], [], [], None, (Some []). split; [discriminate|reflexivity]. Qed.
+
+  (* ---- ReadUsersetTuplesKey *)
+  Theorem rut_key_inj s1 o1 r1 refs1 c1 s2 o2 r2 refs2 c2 :
+    (hash (rut_stage1 refs1 c1) = hash (rut_stage1 refs2 c2) -> rut_stage1 refs1 c1 = rut_stage1 refs2 c2) ->
+    rut_key hash s1 o1 r1 refs1 c1 = rut_key hash s2 o2 r2 refs2 c2 ->
+    s1 = s2 /\ o1 = o2 /\ r1 = r2 /\
+    Permutation (map ref_str refs1) (map ref_str refs2) /\ Permutation c1 c2.
+  Proof.
+    unfold rut_key. intros NC H. apply pkey_inj in H;
+      [|unfold pkey_wf; simpl; rewrite hash_u64; reflexivity
+       |unfold pkey_wf; simpl; rewrite hash_u64; reflexivity|reflexivity].
+    injection H as -> -> -> Hh. apply NC in Hh. unfold rut_stage1 in Hh.
+    apply enc_str_array_pf in Hh as [E1 Hh].
+    rewrite <- (app_nil_r (enc_str_array (sort_strings c1))),
+            <- (app_nil_r (enc_str_array (sort_strings c2))) in Hh.
+    apply enc_str_array_pf in Hh as [E2 _].
+    repeat split; try assumption; apply sort_strings_canonical; assumption.
+  Qed.
+
+  Theorem rut_key_canonical s o r refs1 c1 refs2 c2 :
+    Permutation (map ref_str refs1) (map ref_str refs2) -> Permutation c1 c2 ->
+    rut_key hash s o r refs1 c1 = rut_key hash s o r refs2 c2.
+  Proof.
+    intros P1 P2. unfold rut_key, rut_stage1.
+    apply sort_strings_canonical in P1, P2. rewrite P1, P2. reflexivity.
+  Qed.
+
+  Theorem rut_key_inj_wellformed s1 o1 r1 refs1 c1 s2 o2 r2 refs2 c2 :
+    forallb ref_wf refs1 = true -> forallb ref_wf refs2 = true ->
+    (hash (rut_stage1 refs1 c1) = hash (rut_stage1 refs2 c2) -> rut_stage1 refs1 c1 = rut_stage1 refs2 c2) ->
+    rut_key hash s1 o1 r1 refs1 c1 = rut_key hash s2 o2 r2 refs2 c2 ->
+    s1 = s2 /\ o1 = o2 /\ r1 = r2 /\ Permutation refs1 refs2 /\ Permutation c1 c2.
+  Proof.
+    intros W1 W2 NC H. apply rut_key_inj in H as [Es [Eo [Er [Pr Pc]]]]; [|exact NC].
+    repeat split; try assumption.
+    apply (Permutation_map_inj ref_str); [|exact Pr].
+    rewrite forallb_forall in W1, W2. intros a b Ha Hb. apply ref_str_inj; auto.
+  Qed.
+
+  (* ---- ReadKey *)
+  Theorem read_key_inj s1 o1 r1 u1 c1 s2 o2 r2 u2 c2 :
+    (hash (read_stage1 c1) = hash (read_stage1 c2) -> read_stage1 c1 = read_stage1 c2) ->
+    read_key hash s1 o1 r1 u1 c1 = read_key hash s2 o2 r2 u2 c2 ->
+    s1 = s2 /\ o1 = o2 /\ r1 = r2 /\ u1 = u2 /\ Permutation c1 c2.
+  Proof.
+    unfold read_key. intros NC H. apply pkey_inj in H;
+      [|unfold pkey_wf; simpl; rewrite hash_u64; reflexivity
+       |unfold pkey_wf; simpl; rewrite hash_u64; reflexivity|reflexivity].
+    injection H as -> -> -> -> Hh. apply NC in Hh. unfold read_stage1 in Hh.
+    rewrite <- (app_nil_r (enc_str_array (sort_strings c1))),
+            <- (app_nil_r (enc_str_array (sort_strings c2))) in Hh.
+    apply enc_str_array_pf in Hh as [E _].
+    repeat split; try reflexivity. apply sort_strings_canonical. exact E.
+  Qed.
+
+  Theorem read_key_canonical s o r u c1 c2 :
+    Permutation c1 c2 -> read_key hash s o r u c1 = read_key hash s o r u c2.
+  Proof.
+    intro P. unfold read_key, read_stage1. apply sort_strings_canonical in P. rewrite P. reflexivity.
+  Qed.
+
+  (* ---- sub-problem key / BatchCheck de-duplication key (C07) and v2 edge key *)
+  Theorem batch_key_sem s1 m1 o1 r1 u1 c1 ts1 s2 m2 o2 r2 u2 c2 ts2 :
+    inv_wf c1 ts1 = true -> inv_wf c2 ts2 = true ->
+    (hash (inv_bytes s1 m1 c1 ts1) = hash (inv_bytes s2 m2 c2 ts2) ->
+     inv_bytes s1 m1 c1 ts1 = inv_bytes s2 m2 c2 ts2) ->                       (* no_digest_collision *)
+    batch_key hash s1 m1 o1 r1 u1 c1 ts1 = batch_key hash s2 m2 o2 r2 u2 c2 ts2 ->
+    s1 = s2 /\ m1 = m2 /\ o1 = o2 /\ r1 = r2 /\ u1 = u2 /\ ctx_equiv c1 c2 /\ tuples_equiv ts1 ts2.
+  Proof.
+    unfold batch_key, invariant_key. intros W1 W2 NC H.
+    apply check_key_inj in H as [Es [Eo [Er [Eu Ei]]]]; try apply hash_u64.
+    apply NC in Ei. apply invariant_key_inj in Ei as [_ [Em [Ec Et]]]; try assumption.
+    repeat split; assumption.
+  Qed.
+
+  Theorem batch_key_canonical s m o r u c1 ts1 c2 ts2 :
+    inv_keys_unique c1 ts1 = true -> tie_free ts1 = true ->
+    ctx_equiv c1 c2 -> tuples_equiv ts1 ts2 ->
+    batch_key hash s m o r u c1 ts1 = batch_key hash s m o r u c2 ts2.
+  Proof.
+    intros U TF Ec Et. unfold batch_key, invariant_key.
+    rewrite (invariant_key_canonical s m c1 ts1 c2 ts2 U TF Ec Et). reflexivity.
+  Qed.
+
+  Theorem edge_key_sem s1 m1 o1 u1 rd1 et1 tl1 tr1 c1 ts1 s2 m2 o2 u2 rd2 et2 tl2 tr2 c2 ts2 :
+    is_u64 et1 = true -> is_u64 et2 = true ->
+    inv_wf c1 ts1 = true -> inv_wf c2 ts2 = true ->
+    (hash (inv_bytes s1 m1 c1 ts1) = hash (inv_bytes s2 m2 c2 ts2) ->
+     inv_bytes s1 m1 c1 ts1 = inv_bytes s2 m2 c2 ts2) ->
+    edge_key hash s1 m1 o1 u1 rd1 et1 tl1 tr1 c1 ts1 = edge_key hash s2 m2 o2 u2 rd2 et2 tl2 tr2 c2 ts2 ->
+    s1 = s2 /\ m1 = m2 /\ o1 = o2 /\ u1 = u2 /\ rd1 = rd2 /\ et1 = et2 /\ tl1 = tl2 /\ tr1 = tr2 /\
+    ctx_equiv c1 c2 /\ tuples_equiv ts1 ts2.
+  Proof.
+    unfold edge_key, invariant_key. intros E1 E2 W1 W2 NC H.
+    apply pkey_inj in H;
+      [|unfold pkey_wf; simpl; rewrite E1, hash_u64; reflexivity
+       |unfold pkey_wf; simpl; rewrite E2, hash_u64; reflexivity|reflexivity].
+    injection H as -> -> -> -> -> -> -> -> Hi.
+    apply NC in Hi. apply invariant_key_inj in Hi as [_ [_ [Ec Et]]]; try assumption.
+    repeat split; assumption.
+  Qed.
+End HashedProofs.
+
+(* filter lists are treated as multisets: a duplicated entry changes the pre-hash bytes, although
+   the stores interpret the lists as sets (harmless: a cache miss) *)
+Theorem filter_set_semantics_refuted :
+  exists c1 c2, (forall x, In x c1 <-> In x c2) /\ read_stage1 c1 <> read_stage1 c2.
+Proof.
+  exists [[99]], [[99]; [99]]. split.
+  - intro x. simpl. tauto.
+  - vm_compute. discriminate.
+Qed.
+
+(* ------------------------------------------------------------------ the layouts, as read from the Go source *)
+Open Scope string_scope.
+
+Theorem method_tags_as_modelled :
+  c24_method_tags =
+  [("EncodeArray", ""); ("EncodeArrayHeader", "tagArray"); ("EncodeBool", "tagBool");
+   ("EncodeByte", "tagByte"); ("EncodeBytes", "tagBytes"); ("EncodeMap", "");
+   ("EncodeMapHeader", "tagMap"); ("EncodeNull", "tagNull");
+   ("EncodePair", "tagPair,tagKey,tagValue"); ("EncodeString", "tagString");
+   ("EncodeUint64", "tagUint64"); ("EncodeUnset", "tagUnset")].
+Proof. reflexivity. Qed.
+
+Theorem filter_fields_as_modelled :
+  c24_filter_fields =
+  [("ReadFilter", ["Object"; "Relation"; "User"; "Conditions"]);
+   ("ReadStartingWithUserFilter", ["ObjectType"; "Relation"; "UserFilter"; "ObjectIDs"; "Conditions"]);
+   ("ReadUsersetTuplesFilter", ["Object"; "Relation"; "AllowedUserTypeRestrictions"; "Conditions"])].
+Proof. reflexivity. Qed.
+
+Definition S_ (a : string) := ("EncodeString", a).
+Definition U_ (a : string) := ("EncodeUint64", a).
+
+(* every function of /repo that calls keys.GetBuilder(), with its builder calls in order:
+   "$Name" a named constant, "=lit" an inline literal, "@expr" an argument *)
+Definition modelled_key_sites : list (string * list (string * string)) :=
+  [("internal/check/check.go:EdgeCacheKey",
+    [S_ "$PrefixEdgeCacheKey"; S_ "@req.GetStoreID()"; S_ "@req.GetAuthorizationModelID()";
+     S_ "@req.GetTupleKey().GetObject()"; S_ "@req.GetTupleKey().GetUser()";
+     S_ "@edge.GetRelationDefinition()"; U_ "@uint64(edge.GetEdgeType())";
+     S_ "@edge.GetTo().GetUniqueLabel()"; S_ "@edge.GetTuplesetRelation()"; U_ "@req.GetInvariantCacheKey()"]);
+   ("internal/check/request.go:ctxTuplesByObjectKey", [S_ "@objectID"; S_ "@relation"; S_ "@userType"]);
+   ("internal/check/request.go:ctxTuplesByUserKey", [S_ "@userID"; S_ "@relation"; S_ "@objectType"]);
+   ("internal/check/strategies.go:createRecursiveTTUPlanKey",
+    [S_ "=V2"; S_ "=TTU"; S_ "@req.GetStoreID()"; S_ "@req.GetAuthorizationModelID()";
+     S_ "@tuplesetRelation"; S_ "@req.GetUserType()"; S_ "=INFINITE"]);
+   ("internal/check/strategies.go:createRecursiveUsersetPlanKey",
+    [S_ "=V2"; S_ "=USERSET"; S_ "@req.GetStoreID()"; S_ "@req.GetAuthorizationModelID()";
+     S_ "@userset"; S_ "@req.GetUserType()"; S_ "=INFINITE"]);
+   ("internal/check/strategies.go:createTTUPlanKey",
+    [S_ "=V2"; S_ "=TTU"; S_ "@req.GetStoreID()"; S_ "@req.GetAuthorizationModelID()";
+     S_ "@req.GetObjectType()"; S_ "@req.GetTupleKey().GetRelation()"; S_ "@req.GetUserType()";
+     S_ "@tuplesetRelation"; S_ "@computedRelation"]);
+   ("internal/check/strategies.go:createUsersetPlanKey",
+    [S_ "=V2"; S_ "=USERSET"; S_ "@req.GetStoreID()"; S_ "@req.GetAuthorizationModelID()";
+     S_ "@req.GetObjectType()"; S_ "@req.GetTupleKey().GetRelation()"; S_ "@req.GetUserType()"; S_ "@userset"]);
+   ("internal/graph/check.go:checkDirectUsersetTuples",
+    [S_ "=USERSET"; S_ "@req.GetStoreID()"; S_ "@req.GetAuthorizationModelID()"; S_ "@objectType";
+     S_ "@relation"; S_ "@userType"; S_ "=INFINITE"; ("Reset", ""); ("Write", "@keyPlanPrefix");
+     S_ "=USERSET"; S_ "@userset.String()"]);
+   ("internal/graph/check.go:checkTTU",
+    [S_ "=TTU"; S_ "@req.GetStoreID()"; S_ "@req.GetAuthorizationModelID()"; S_ "@objectType";
+     S_ "@relation"; S_ "@userType"; S_ "@tuplesetRelation"; S_ "@computedRelation"]);
+   ("internal/modelgraph/resolver.go:CacheKey", [S_ "$CacheKeyPrefix"; S_ "@storeID"; S_ "@modelID"]);
+   ("pkg/storage/cache.go:ChangelogCacheKey", [S_ "$PrefixChangelogCache"; S_ "@storeID"]);
+   ("pkg/storage/cache.go:CheckCacheKey",
+    [S_ "$PrefixSubproblemCache"; S_ "@storeID"; S_ "@object"; S_ "@relation"; S_ "@user"; U_ "@invariant"]);
+   ("pkg/storage/cache.go:InvalidIteratorByObjectRelationCacheKey",
+    [S_ "$PrefixInvalidIteratorCache"; S_ "=OR"; S_ "@storeID"; S_ "@object"; S_ "@relation"]);
+   ("pkg/storage/cache.go:InvalidIteratorByUserObjectTypeCacheKey",
+    [S_ "$PrefixInvalidIteratorCache"; S_ "=UOT"; S_ "@storeID"; S_ "@user"; S_ "@objectType"]);
+   ("pkg/storage/cache.go:InvalidIteratorCacheKey", [S_ "$PrefixInvalidIteratorCache"; S_ "@storeID"]);
+   ("pkg/storage/cache.go:InvariantCacheKey",
+    [S_ "@storeID"; S_ "@modelID"; ("EncodeArray", "@ts"); ("Serialize", "@value");
+     ("Write", "@builder.Bytes()"); ("Sum64", "")]);
+   ("pkg/storage/keys.go:ReadKey",
+    [("EncodeArray", "@a[:n]"); ("Write", "@builder.Bytes()"); ("Sum64", ""); ("Reset", "");
+     S_ "$PrefixIteratorCache"; S_ "=READ"; S_ "@store"; S_ "@filter.Object"; S_ "@filter.Relation";
+     S_ "@filter.User"; U_ "@suffix"]);
+   ("pkg/storage/keys.go:ReadStartingWithUserKey",
+    [("EncodeArray", "@a[:n]"); ("EncodeArray", "@a"); ("EncodeArray", "@a[:n]");
+     ("Write", "@builder.Bytes()"); ("Sum64", ""); ("Reset", "");
+     S_ "$PrefixIteratorCache"; S_ "=RSWU"; S_ "@store"; S_ "@filter.ObjectType"; S_ "@filter.Relation";
+     U_ "@suffix"]);
+   ("pkg/storage/keys.go:ReadUsersetTuplesKey",
+    [("EncodeArray", "@a[:n]"); ("EncodeArray", "@a[:n]"); ("Write", "@builder.Bytes()"); ("Sum64", "");
+     ("Reset", ""); S_ "$PrefixIteratorCache"; S_ "=RUT"; S_ "@store"; S_ "@filter.Object";
+     S_ "@filter.Relation"; U_ "@suffix"]);
+   ("pkg/storage/storagewrappers/model_caching.go:ModelCacheKey",
+    [S_ "$ModelCacheKeyPrefix"; S_ "@storeID"; S_ "@modelID"]);
+   ("pkg/typesystem/resolver.go:MemoizedTypesystemResolverFunc", [S_ "=TS"; S_ "@storeID"; S_ "@modelID"])].
+
+(* C16: the list of key constructors is read from the source; a new or changed constructor
+   breaks this equality until the model covers it *)
+Theorem key_sites_as_modelled : c24_key_sites = modelled_key_sites.
+Proof. reflexivity. Qed.
